@@ -12,6 +12,9 @@ def run(chk):
     pr = X.standard_proof(chk, "C02", thorough)
     # ---- negative inputs
     cases = [(t, "handkept") for t in X.corpus_lines("C02", "handkept.txt")]
+    # recursive entity definitions of every small shape are ill-formed (the DTD-default variants are refused when the default is
+    # read; entity-wfc covers only definitions that are never used)
+    cases += [(t, "handkept") for t in X.cyclic_entity_docs()]
     cases += [(t, "corpus") for t in X.corpus_lines("C02", "found.txt")]
     ndocs = 300 if thorough else 60
     docs = X.gen_docs(rng, ndocs, styles=1)
